@@ -366,6 +366,8 @@ fn split_macro_args<'stream>(
     let mut brace_scope = 0;
     let mut remaining_offset = 0;
     loop {
+        #[cfg(feature = "verif-hooks")]
+        rssl_text::verif::tick(5);
         let next_pos_result = remaining[remaining_offset..]
             .iter()
             .position(|t| matches!(t.0, Token::Comma | Token::LeftParen | Token::RightParen));
@@ -484,6 +486,8 @@ fn apply_single_macro(
     apply_defined: bool,
     source_manager: &mut SourceManager,
 ) -> Result<MacroSearchPosition, PreprocessError> {
+    #[cfg(feature = "verif-hooks")]
+    rssl_text::verif::tick(3);
     // Find the first macro or special operation that matches the text
     let found = find_single_macro(
         tokens,
@@ -726,6 +730,8 @@ fn find_single_macro(
     assert!(search_pos.early_function_pos <= search_pos.next_pos);
     let mut i = search_pos.early_function_pos;
     while i < tokens.len() {
+        #[cfg(feature = "verif-hooks")]
+        rssl_text::verif::tick(4);
         if let Token::Id(id) = &tokens[i].0 {
             if i >= search_pos.next_pos && apply_defined && id.0 == "defined" {
                 return Ok(FoundMacro::Defined(i));
